@@ -101,7 +101,7 @@ def history(draw):
     n = draw(st.integers(8, 40))
     ninst = 0
     for _ in range(n):
-        k = draw(st.sampled_from(["default", "default", "kw", "kwpartial", "pospartial", "parse", "parse", "scratch-union", "set", "mutate", "mutate", "mutate", "dump", "flip", "loadmore", "alias", "failparse", "fresh", "enumop", "enumop", "lend"]))
+        k = draw(st.sampled_from(["default", "default", "kw", "kwpartial", "pospartial", "parse", "parse", "scratch-union", "set", "mutate", "mutate", "mutate", "dump", "flip", "loadmore", "alias", "failparse", "fresh", "enumop", "enumop", "lend", "extend"]))
         c = draw(st.integers(0, ncs - 1))
         tname = draw(st.sampled_from(["P", "P", "Q", "W", "O1", "A", "QK", "G", "G"]))
         if k in ("default", "kw", "kwpartial", "pospartial", "parse"):
@@ -117,6 +117,8 @@ def history(draw):
             ops.append(["enumop", c, draw(st.sampled_from(["E", "F"])), draw(st.binary(min_size=4, max_size=4)).hex()])
         elif k in ("loadmore", "alias", "failparse", "fresh"):
             ops.append([k, c, tname])
+        elif k == "extend":
+            ops.append(["extend", c, draw(st.booleans()), draw(st.booleans()), draw(st.integers(1, 255))])
         elif k == "lend":
             ops.append(["lend", c, draw(st.sampled_from(["uint16", "uint32", "int64", "E", "F", "In", "P", "G", "U"])), draw(st.integers(0, 2)), draw(st.binary(min_size=48, max_size=48)).hex()])
     return {"objs": objs, "ops": ops}
@@ -352,6 +354,42 @@ def run_case(case, ctx):
             r = lib(touch)
             if isinstance(r, Err):
                 raise Violation("operation-raised", f"step {step} changing a default union in place: {r}; history {trace}", r.where)
+        elif k == "extend":
+            # a structure that is (or is not) used first and then grows array / nested-structure / row members through the
+            # public API: members added later are as private to every instance as the ones it was born with
+            _, c, used_first, batch, val = op
+            cs_ = objs[c]["cs"]
+            nm = f"Ext{step}"
+            r = lib(cs_.load, f"struct {nm} {{ uint8 a; uint16 b; }};\n", compiled=objs[c]["compiled"])
+            if isinstance(r, Err):
+                raise Violation("operation-raised", f"step {step} declaring {nm}: {r}; history {trace}", r.where)
+            X = getattr(cs_, nm)
+
+            def extend():
+                if used_first:
+                    X(), X(a=1), X(b"\x01\x02\x03"), X().dumps()
+                new = [("arr", cs_.uint8[3]), ("inner", cs_.H), ("rows", cs_.uint16[2][2])]
+                if batch:
+                    with X.start_update():
+                        for n_, t_ in new:
+                            X.add_field(n_, t_)
+                else:
+                    for n_, t_ in new:
+                        X.add_field(n_, t_)
+                x, y = X(), X(a=5)
+                x.arr[0] = val
+                x.inner.t[1] = val
+                x.inner.u.arr[2] = val
+                x.rows[1][0] = val
+                x.rows[0].append(val)
+                return x.arr, y.dumps(), X().dumps(), X(a=5).dumps(), len(X)
+
+            r = lib(extend)
+            if isinstance(r, Err):
+                raise Violation("operation-raised", f"step {step} extending {nm} (used first: {used_first}, batch: {batch}): {r}; history {trace}", r.where)
+            _, yd, zd, y2d, ln = r
+            if ln != 21 or zd != bytes(21) or yd != b"\x05" + bytes(20) or y2d != yd:
+                raise Violation("default-not-fresh", f"step {step}: {nm} grew arr / inner / rows through add_field ({'one start_update batch' if batch else 'one by one'}, {'used before' if used_first else 'not used before'}); after changing those members of ONE instance in place, another instance dumps {yd!r}, a new default {zd!r}, a new {nm}(a=5) {y2d!r} (size {ln}); all of them are zero but a; history {trace}")
         elif k == "enumop":
             # the enum / flag type of THIS object, used directly: parse and dump follow this object's underlying type and
             # current endianness, whatever other objects with a same-named, same-membered enum did in between
